@@ -16,6 +16,19 @@ CLAIMED = {
     ),
 }
 
+CLAIMED["C11"] = (
+    "exhaustive path enumeration over go/ssa with inlining, nil-ness refinement and defer/recover modelling (E-path) + syntax-level table agreement for the milestone switch",
+    "Every control-flow path of every entry point that takes an event channel is enumerated over the alphabet {emit(E), close, return, panic}; the bracket/prefix language, the close count per exit, no-send-after-close, no panic exit and plain blocking sends are decided on that complete, finite path set (the pipeline functions are loop-free; a loop would be reported as undecided). The milestone consumer is checked for exhaustive, correctly paired handling of all EventType constants. This is the right level because the property is a path property of a small loop-free pipeline whose alphabet is visible in the source.",
+    "Durations are runtime clock values (declined). Dependency calls are assumed able to panic anywhere except a short list of pure standard-library functions; go/ssa's defer/recover model is trusted. " + TRUST,
+    "DESIGN.md section 3, C11",
+)
+CLAIMED["C04"] = (
+    "intra-procedural error-discipline rule + exhaustive inlined path enumeration (E-path) with value-origin tracking",
+    "Structural necessary conditions decided on all paths: no data-path error is dropped or turned into a nil error (per function), every inlined entry-point path with a failed read returns a non-nil error and never reaches policy evaluation or the report builder, and the evaluated input is always the reader's result of the same call. Right level: the property is an error-propagation rule whose violations are visible as a branch that returns nil or as a value of foreign origin.",
+    "Which byte strings encoding/json and json-gold reject is a runtime matter of the dependencies (trusted). " + TRUST,
+    "DESIGN.md section 3, C04",
+)
+
 # properties without a check yet (or declined), with the reason
 NOT_APPLICABLE = {
 }
